@@ -1,0 +1,12 @@
+//go:build verif
+
+package definitions
+
+// Contracts for gvc (see /verif/DESIGN.md). Comment-only: this file adds no code to any build.
+
+//@ func IsValidHttpStatusCode props C06,C14
+//@ ensures result == indom(validHttpStatusCode, code)
+
+//@ func ConvertToHttpStatus props C06,C14
+//@ ensures implies(result1 != nil, result0 == 0)
+//@ ensures implies(result1 == nil, indom(validHttpStatusCode, uint(result0)))
